@@ -15,9 +15,13 @@ import (
 
 type Loader struct {
 	*RdbReader
-	crc        hash.Hash64
-	db         uint32
-	lastEntry  *BinEntry
+	crc       hash.Hash64
+	db        uint32
+	lastEntry *BinEntry
+	// lastKey is the key of lastEntry as it is in the snapshot. The entry itself has been handed
+	// to the consumer, which may give it another key (hash tag replacement) while the next chunk
+	// of the same value is being parsed.
+	lastKey    []byte
 	logger     log.Logger
 	rdbVersion int64
 	options    rdbParseOptions
@@ -177,6 +181,7 @@ func (l *Loader) Next() (entry *BinEntry, err error) {
 			entry.DB = int(l.db)
 			entry.Key = parser.Key()
 			l.lastEntry = entry
+			l.lastKey = entry.Key
 			return entry, nil
 		}
 	}
